@@ -156,6 +156,87 @@ theorem bounded_run (hash : K → Nat) (thr : Nat → Nat) (d : Desc K V) (m : L
     rw [hb.2] at this
     exact this
 
+/-- the bound with **no** hypothesis on the current size (a `SetMax` below the size leaves a surplus, `setMax_keeps`):
+    under a bound, no operation other than SetMax ever makes the map larger than `max(max, previous size)` — a map
+    within its bound stays within it, a surplus never grows -/
+theorem bounded_any_step (d : Desc K V) (s : S K V) (op : Op K V) (h : s.WF) (hm : 0 < s.max)
+    (hop : ∀ n, op ≠ .setMax n) :
+    (S.step d s op).1.ents.length ≤ Nat.max s.max s.ents.length ∧ (S.step d s op).1.max = s.max := by
+  by_cases hle : s.ents.length ≤ s.max
+  · have := S.bounded_step d h hm hle op hop
+    exact ⟨Nat.le_trans this.1 (Nat.le_max_left _ _), this.2⟩
+  · have hover : s.max < s.ents.length := by omega
+    suffices hs : (S.step d s op).1.ents.length ≤ s.ents.length ∧ (S.step d s op).1.max = s.max from
+      ⟨Nat.le_trans hs.1 (Nat.le_max_right _ _), hs.2⟩
+    have hput : ∀ m k f, (s.putWith m k f).1.ents.length ≤ s.ents.length ∧ (s.putWith m k f).1.max = s.max := by
+      intro m k f
+      refine ⟨?_, by unfold S.putWith; split <;> rfl⟩
+      rw [S.length_putWith h]
+      split
+      · exact Nat.le_refl _
+      · split
+        · omega
+        · rename_i h1 h2
+          exact absurd ⟨hm, Nat.le_of_lt hover⟩ h2
+    cases op <;> simp only [S.step]
+    case put m k v => unfold S.put; split; exact ⟨Nat.le_refl _, (by first | rfl | trivial)⟩; exact hput _ _ _
+    case add m k v => unfold S.add; split; exact ⟨Nat.le_refl _, (by first | rfl | trivial)⟩; exact hput _ _ _
+    case addNoOver k v =>
+      unfold S.addNoOver
+      split; exact ⟨Nat.le_refl _, (by first | rfl | trivial)⟩
+      split
+      · simp only [AL.length_set]; exact ⟨Nat.le_refl _, (by first | rfl | trivial)⟩
+      · split
+        · exact ⟨Nat.le_refl _, (by first | rfl | trivial)⟩
+        · rename_i hf
+          simp only [S.isFull, decide_eq_true_eq] at hf
+          exact absurd ⟨hm, Nat.le_of_lt hover⟩ hf
+    case getLRU k =>
+      split
+      · rename_i v hg
+        have hk : k ∈ AL.keys s.ents := AL.get_isSome_iff.mp (by rw [hg]; rfl)
+        have := AL.length_erase_of_mem h hk
+        simp only [List.length_append, List.length_cons, List.length_nil]
+        exact ⟨by omega, (by first | rfl | trivial)⟩
+      · exact ⟨Nat.le_refl _, (by first | rfl | trivial)⟩
+    case remove k =>
+      unfold S.remove
+      exact ⟨(AL.erase_sublist s.ents k).length_le, (by first | rfl | trivial)⟩
+    case removeFirst =>
+      split
+      · exact ⟨Nat.le_refl _, (by first | rfl | trivial)⟩
+      · rename_i hs
+        rw [hs]; simp only [List.length_cons]
+        exact ⟨by omega, (by first | rfl | trivial)⟩
+    case removeLast =>
+      split
+      · exact ⟨Nat.le_refl _, (by first | rfl | trivial)⟩
+      · simp only [List.length_dropLast]; exact ⟨by omega, (by first | rfl | trivial)⟩
+    case clear => exact ⟨by simp, (by first | rfl | trivial)⟩
+    case setMax n => exact absurd rfl (hop n)
+    case sort lt =>
+      refine ⟨Nat.le_trans (S.length_keepLast_le _ _) ?_, (by first | rfl | trivial)⟩
+      have : (AL.sortEnts lt s.ents).length = s.ents.length := (List.mergeSort_perm _ _).length_eq
+      rw [this]; exact Nat.le_refl _
+    all_goals exact ⟨Nat.le_refl _, (by first | rfl | trivial)⟩
+
+/-- … for whole histories of the CodeModel from **any** reachable state (over its bound or not): no history without
+    SetMax makes `count` exceed `max(max, count at the start)` -/
+theorem bounded_any_run (hash : K → Nat) (thr : Nat → Nat) (d : Desc K V) (m : LMap K V) (ops : List (Op K V))
+    (h : LMap.Inv hash d m) (hm : 0 < m.max) (hops : ∀ op ∈ ops, ∀ n, op ≠ .setMax n) :
+    (LMap.run hash thr d m ops).1.count ≤ Nat.max m.max m.count ∧ (LMap.run hash thr d m ops).1.max = m.max := by
+  induction ops generalizing m with
+  | nil => exact ⟨Nat.le_max_right _ _, rfl⟩
+  | cons op ops ih =>
+    obtain ⟨hi, _, he⟩ := LMap.refine_step thr h op
+    have hb := bounded_any_step d (LMap.abs hash m) op (LMap.abs_WF h) (by rw [LMap.abs_max]; exact hm) (hops op (by simp))
+    rw [← he, LMap.abs_length hi, LMap.abs_max, LMap.abs_max, LMap.abs_length h] at hb
+    have := ih (m := (LMap.step hash thr d m op).1) hi (by rw [hb.2]; exact hm) (fun o ho => hops o (by simp [ho]))
+    simp only [LMap.run]
+    rw [hb.2] at this
+    refine ⟨Nat.le_trans this.1 ?_, this.2⟩
+    exact Nat.max_le.mpr ⟨Nat.le_max_left _ _, hb.1⟩
+
 /-- no eviction when an existing key is updated: size and key set are unchanged, whatever the mode -/
 theorem no_evict_on_update (d : Desc K V) (s : S K V) (mode : Mode) (k : K) (v : V) (h : s.WF)
     (hk : k ∈ AL.keys s.ents) :
@@ -563,5 +644,17 @@ example :
   refine ⟨by decide, by decide, fun e he => ?_⟩
   simp only [List.mem_cons, List.mem_nil_iff, or_false] at he
   rcases he with rfl | rfl <;> exact ⟨by decide, by decide⟩
+
+/-- `bounded_any_step` / `bounded_any_run` where they say more than `bounded_run`: a map over its bound (SetMax 2 on five
+    entries) — lookups, an update, a removal and an insertion never make it larger; the insertion brings it down to the bound -/
+example :
+    let d : Desc Int Int := { comb := fun a b => a + b, veq := fun a b => a == b }
+    let m := (LMap.run (fun _ : Int => 7) (fun c => c / 2) d (LMap.new (fun c => c / 2) 1)
+      [.put .last 1 10, .put .last 2 20, .put .last 3 30, .put .last 4 40, .put .last 5 50, .setMax 2]).1
+    m.count = 5 ∧ 0 < m.max ∧
+    ((LMap.run (fun _ : Int => 7) (fun c => c / 2) d m [.get 1, .put .last 3 33, .size]).2 = [.val 10, .val 30, .nat 5]) ∧
+    ((LMap.run (fun _ : Int => 7) (fun c => c / 2) d m [.remove 1, .size, .put .last 9 90, .size, .keys]).2
+      = [.val 10, .nat 4, .none, .nat 2, .keys [5, 9]]) := by
+  decide
 
 end C09
